@@ -39,6 +39,9 @@ CONSTANTS
   MaxHdr,       \* capacity of the reader -> writer header queue
   MaxBurst,     \* chunks per datagram / messages sliced per write step
   Sched,        \* BOOLEAN: scheduling layer enforced
+  Patient,      \* BOOLEAN: resend / resend-request timers expire only when nothing of the
+                \* connection is in flight (time-out longer than a round trip)
+  MaxAckSet,    \* acks.go MaxAckSet: explicit acks beyond the first range
   ChunkCounts(_) \* admissible chunk counts of a message of a given size
 
 Transports == 0 .. (NT - 1)
@@ -96,6 +99,15 @@ LayNext(L) == IF L = <<>> THEN 0 ELSE L[Len(L)].first + L[Len(L)].n
 \* first sequence number >= from that is not in set, at most to
 FirstMissing(from, to, set) ==
   IF \E s \in from .. (to - 1) : s \notin set THEN SetMin({s \in from .. (to - 1) : s \notin set}) ELSE to
+
+\* AcksToSend.BuildAck: the first range in full, then at most MaxAckSet further numbers
+AckSetOf(S) ==
+  IF S = {} THEN {}
+  ELSE LET lo == SetMin(S)
+           fr == {s \in S : \A x \in lo .. s : x \in S}
+           rest == S \ fr
+       IN IF Cardinality(rest) <= MaxAckSet THEN S
+          ELSE fr \cup {s \in rest : Cardinality({x \in rest : x < s}) < MaxAckSet}
 
 Holes(p, S) == IF S = {} THEN {} ELSE {s \in p .. SetMax(S) : s \notin S}
 
@@ -289,7 +301,7 @@ Write(t, snd) ==
               ch == snd.lo .. snd.hi
               dg == [id |-> snd.id, src |-> t, lo |-> snd.lo, hi |-> snd.hi,
                      ackP |-> IF t > p THEN W.kP[c] ELSE 0,
-                     ackS |-> IF t > p THEN W.kS[c] ELSE {},
+                     ackS |-> IF t > p THEN AckSetOf(W.kS[c]) ELSE {},
                      nack |-> IF t > p /\ snd.nk THEN Holes(W.kP[c], W.kS[c]) ELSE {}]
           IN /\ p \in Peers(t)
              /\ Len(net[p]) < MaxNet
@@ -320,9 +332,17 @@ Write(t, snd) ==
 (* 't' : timers.  Only the scheduling layer is touched.  The resend timer  *)
 (* is armed while chunks are in flight, the resend-request timer while the *)
 (* ack builder knows holes, the ack timer after data was read.             *)
+Idle(c) ==
+  /\ \A j \in 1 .. Len(net[c[2]]) : net[c[2]][j].src # c[1]
+  /\ \A j \in 1 .. Len(net[c[1]]) : net[c[1]][j].src # c[2]
+  /\ \A j \in 1 .. Len(hdrQ[c[2]]) : hdrQ[c[2]][j].peer # c[1]
+  /\ \A j \in 1 .. Len(hdrQ[c[1]]) : hdrQ[c[1]][j].peer # c[2]
+  /\ ak[c] = 0
+
 TimerResend(c) ==
   LET un == {s \in oP[c] .. (oN[c] - 1) : s \notin oAck[c]} IN
   /\ un \ pend[c] # {}
+  /\ Patient => Idle(c) /\ pend[c] = {} /\ ~forceNk[c]
   /\ pend' = [pend EXCEPT ![c] = @ \cup un]
   /\ UNCHANGED <<dataVars, ak, forceNk, envVars>>
 
@@ -333,6 +353,7 @@ TimerAck(c) ==
 
 TimerNack(c) ==
   /\ kS[c] # {} /\ ~forceNk[c]
+  /\ Patient => Idle(c) /\ pend[c] = {}
   /\ forceNk' = [forceNk EXCEPT ![c] = TRUE]
   /\ UNCHANGED <<dataVars, pend, ak, envVars>>
 
